@@ -6,6 +6,7 @@ import PowHsm.Basic.Json
 import PowHsm.Spec.C14
 import PowHsm.Ledger.Protocol
 import PowHsm.Spec.C03
+import PowHsm.Spec.C02
 namespace PowHsm
 namespace Ops
 open Ledger Comm Dongle Spec
@@ -115,6 +116,9 @@ def run (op : String) (input implOut : Json) : Option (Json × Bool) :=
   | "line" => line (fun _ _ => true) input implOut
   | "line.C03" => line (fun i o => match worldOfJson i with
       | some w => Spec.c03 w.script w.commIssue o | none => false) input implOut
+  | "line.C02" => line (fun i o => match i.get? "request" with
+      | some j => Spec.C02.allowedObs (modeOfJson i) j o
+      | none => Spec.C02.allowedObs (modeOfJson i) (.str "<undecodable>") o) input implOut
   | _ => none
 
 end Ops
